@@ -42,12 +42,12 @@ func (db *db) set(id int, key string, tree *Tree) {
 	} else {
 		db.tpl = append(db.tpl, &tpl)
 		idx = len(db.tpl) - 1
-		if id >= 0 {
-			db.idxID[id] = idx
-		}
-		if key != "-1" {
-			db.idxKey[key] = idx
-		}
+	}
+	if id >= 0 {
+		db.idxID[id] = idx
+	}
+	if key != "-1" {
+		db.idxKey[key] = idx
 	}
 	db.idxHash[tree.hsum] = idx
 	db.mux.Unlock()
